@@ -149,7 +149,7 @@ def _junc(spec, name, init):
 def junction_gadgets(tier):
     """name, builder(spec, props) - number of proportion parameters needed"""
     # the *_rev / to_res / res_res gadgets declare the downstream junction BEFORE the upstream one (declaration order != topological order)
-    return [("single", 2), ("residual", 2), ("fan", 3), ("chain", 3), ("diamond", 4), ("res_chain", 3), ("chain_rev", 3), ("to_res", 3), ("res_res", 2)]
+    return [("single", 2), ("residual", 2), ("fan", 3), ("chain", 3), ("diamond", 4), ("res_chain", 3), ("chain_rev", 3), ("to_res", 3), ("res_res", 2), ("shared_res", 3)]
 
 
 def build_gadget(spec, gadget, props, jinit, inflow=("probability", None, 0.5), psrc="const", two_in=False):
@@ -208,6 +208,14 @@ def build_gadget(spec, gadget, props, jinit, inflow=("probability", None, 0.5), 
         _junc(spec, "j2", 0)
         _junc(spec, "j1", jinit)
         spec["links"] += [["j1", "b", P(0, props[0])], ["j1", "j2", ">"], ["j2", "c", P(1, props[1])], ["j2", "a", ">"]]
+    elif gadget == "shared_res":
+        # two residual junctions whose outflows share one proportion parameter (q0): each junction splits by the stated proportions, whatever
+        # the other one did with them in the same step (e.g. scaling a sum above 1)
+        _junc(spec, "j1", jinit)
+        _junc(spec, "j2", jinit / 2 if jinit else 0)
+        add_edge(spec, "b", "j2", ("rate", None, 0.4), name="tk")
+        q0 = P(0, props[0])
+        spec["links"] += [["j1", "b", q0], ["j1", "c", P(1, props[1])], ["j1", "a", ">"], ["j2", "c", q0], ["j2", "a", P(2, props[2])], ["j2", "b", ">"]]
     else:
         raise ValueError(gadget)
 
